@@ -71,8 +71,11 @@ impl Default for E1Cfg {
 
 /// Swarm choice of a scheduling strategy for one run.
 pub fn draw_cfg(cfg: &Chan, max_steps: u64) -> E1Cfg {
-    let den = *cfg.pick(&[2u64, 3, 5, 10]);
-    let strategy = if cfg.chance(1, 3) { Strategy::Pct { depth: 1 + cfg.below(3) as u32, horizon: *cfg.pick(&[20u64, 60, 150]) } } else { Strategy::Random };
+    // switch probability per scheduling point from 1/2 down to 1/100 ("sticky" runs: one thread does
+    // whole operations while another sits inside a window); PCT change points anywhere in the first
+    // 20 .. 1000 steps
+    let den = *cfg.pick(&[2u64, 3, 5, 10, 30, 100]);
+    let strategy = if cfg.chance(1, 3) { Strategy::Pct { depth: 1 + cfg.below(3) as u32, horizon: *cfg.pick(&[20u64, 60, 150, 400, 1000]) } } else { Strategy::Random };
     E1Cfg { strategy, max_steps, switch_num: 1, switch_den: den }
 }
 
